@@ -21,7 +21,7 @@ from typing import Any
 from .driver import FunctionResult, verify
 from .engine import Engine
 from .intake import Program
-from .solve import Verdict, discharge
+from .solve import flatten, Verdict, discharge
 
 ROOT = Path(__file__).resolve().parent.parent
 KF = ROOT / "KNOWN_FINDINGS.txt"
@@ -60,6 +60,13 @@ def match_known(known: list[dict[str, str]], prop: str, v: Verdict) -> dict[str,
     return None
 
 
+_EXPLORE = None
+
+
+def _explore_idx(i: int):
+    return _EXPLORE(i)  # type: ignore[misc]
+
+
 def run_property(modname: str, tier: str, seed: int, update_ledger: bool = False, only: str | None = None) -> int:  # noqa: C901, PLR0912, PLR0915
     t0 = time.time()
     mod = importlib.import_module(f"contracts.{modname}")
@@ -77,7 +84,8 @@ def run_property(modname: str, tier: str, seed: int, update_ledger: bool = False
     all_obls = []
     drop = getattr(mod, "DROP_CLAUSES", None)
     drop_re = re.compile(drop) if drop else None
-    for s in specs:
+    def explore(idx: int) -> FunctionResult:
+        s = specs[idx]
         r = verify(engine, s)
         r.generated = len([o for o in r.obligations if not o.clause.startswith("cover")])  # type: ignore[attr-defined]
         keep = getattr(s, "keep_clauses", None)
@@ -88,7 +96,23 @@ def run_property(modname: str, tier: str, seed: int, update_ledger: bool = False
         if drop_re is not None:
             # clauses that belong to other properties (the same contract instance serves several)
             r.obligations = [o for o in r.obligations if not drop_re.search(o.clause)]
-        results.append(r)
+        r.obligations = [flatten(o) for o in r.obligations]  # SMT-LIB text: picklable, and all that discharge() needs
+        return r
+
+    # exploration is sequential Python per contract instance: one forked worker per instance (the instances are
+    # independent; each worker re-reads nothing - the program was read above - and sends back flattened obligations)
+    nproc = int(os.environ.get("PYVC_EXPLORE_PROCS", "0")) or min(16, os.cpu_count() or 4, max(1, len(specs)))
+    if nproc > 1 and len(specs) > 1:
+        import multiprocessing as mp
+
+        global _EXPLORE
+        _EXPLORE = explore
+        with mp.get_context("fork").Pool(nproc) as pool:
+            # longest first is unknown: hand them out one by one
+            results = pool.map(_explore_idx, range(len(specs)), chunksize=1)
+    else:
+        results = [explore(i) for i in range(len(specs))]
+    for r in results:
         all_obls.extend(r.obligations)
     dead_ok = {(s.label or s.target) for s in specs if getattr(s, "dead_paths_ok", False)}
     verdicts = discharge(all_obls, timeout_ms=timeout_ms, cross=(tier == "thorough"), cheap_covers=frozenset(dead_ok))
